@@ -5,11 +5,14 @@ use crate::util::*;
 use asca::RuleGroup;
 use serde_json::{json, Value};
 
-const RULE_FILES: [(&str, &str); 3] = [
+const RULE_FILES: [(&str, &str); 4] = [
     ("r1", "@ Alpha\n    p > b\n# voicing\n\n@ Beta\n    t > d / V_V\n\n@ Gamma\n    a > e / _#\n# final raising\n"),
     // empty lines directly after a group's name and between its sub rules (allowed by the manual; they do not end the group)
-    ("r2", "@ Delta\n\n    b > β / V_V\n@ Eps\n    d > ð\n\n    ð > z / _#\n   \n@ Zeta\n    e > i\n"),
+    // the group names of this file start with non-ASCII capitals (Ð, Ē, Þ): "case insensitive" is not an ASCII-only notion
+    ("r2", "@ Ðelta\n\n    b > β / V_V\n@ Ēps\n    d > ð\n\n    ð > z / _#\n   \n@ Þeta\n    e > i\n"),
     ("r3", "@ Final Devoicing\n    [+voice] > [-voice] / _#\n@ hap(lo)logy\n    %=1 > * / 1_\n@ STRESS\n    % > [+stress] / #_\n"),
+    // a rule file that contributes no rule at all: a placeholder group and comments (used in the chain and alias boxes only)
+    ("r0", "@ Placeholder\n# nothing decided yet\n\n"),
 ];
 const WORD_FILES: [(&str, &str); 2] = [("w1", "pa.ta\nta.pa.ta   # gloss\n\nqa.ta.ta"), ("w2", "ba.da\n# only a comment\na.pa")];
 const ALIAS: &str = "@into\n    q > k\n";
@@ -18,7 +21,7 @@ const ALIAS: &str = "@into\n    q > k\n";
 #[derive(Clone, Debug)]
 enum Filter { None, Without(Vec<&'static str>), Only(Vec<&'static str>) }
 fn filters_for(file: usize) -> Vec<(String, Filter)> {
-    let (a, b, c) = match file { 0 => ("Alpha", "Beta", "Gamma"), 1 => ("Delta", "Eps", "Zeta"), _ => ("Final Devoicing", "hap(lo)logy", "STRESS") };
+    let (a, b, c) = match file { 0 => ("Alpha", "Beta", "Gamma"), 1 => ("Ðelta", "Ēps", "Þeta"), _ => ("Final Devoicing", "hap(lo)logy", "STRESS") };
     let up = |s: &str| s.to_uppercase(); let lo = |s: &str| s.to_lowercase();
     vec![
         (String::new(), Filter::None),
@@ -31,8 +34,8 @@ fn filters_for(file: usize) -> Vec<(String, Filter)> {
 fn apply_filter(groups: &[RuleGroup], f: &Filter) -> Vec<RuleGroup> {
     match f {
         Filter::None => groups.to_vec(),
-        Filter::Without(names) => groups.iter().filter(|g| !names.iter().any(|n| n.eq_ignore_ascii_case(&g.name))).cloned().collect(),
-        Filter::Only(names) => names.iter().filter_map(|n| groups.iter().find(|g| g.name.eq_ignore_ascii_case(n)).cloned()).collect(),
+        Filter::Without(names) => groups.iter().filter(|g| !names.iter().any(|n| n.to_lowercase() == g.name.to_lowercase())).cloned().collect(),
+        Filter::Only(names) => names.iter().filter_map(|n| groups.iter().find(|g| g.name.to_lowercase() == n.to_lowercase()).cloned()).collect(),
     }
 }
 
@@ -296,7 +299,7 @@ fn all_configs(max_tags: usize, max_entries: usize) -> Vec<(Vec<Tag>, Vec<usize>
 const ALIAS2: &str = "@into\n    q > k\n@from\n    d > t\n    ð > d\n";
 fn alias_stage_box(a: &mut Acc) {
     let mut orders: Vec<Vec<usize>> = vec![];
-    for x in 0..3 { for y in 0..3 { if x != y { orders.push(vec![x, y]); for z in 0..3 { if z != x && z != y { orders.push(vec![x, y, z]); } } } } }
+    for x in 0..4 { for y in 0..4 { if x != y { orders.push(vec![x, y]); for z in 0..4 { if z != x && z != y { orders.push(vec![x, y, z]); } } } } }
     for (n, (ord, wf)) in orders.iter().flat_map(|o| (0..2).map(move |w| (o.clone(), w))).enumerate() {
         let sb = Sandbox::new("c20a", n);
         for (nm, t) in RULE_FILES { sb.write(&format!("{}.rsca", nm), t); }
@@ -341,6 +344,15 @@ fn chain_configs() -> Vec<(Vec<Tag>, Vec<usize>)> {
         ];
         out.push((tags.clone(), vec![0, 1, 2])); out.push((tags, vec![2, 1, 0]));
     } } }
+    // a rule file without any rule (index 3) among the entries of the middle tag, first or last
+    for x in 0..3 { for ents in [vec![(x, 0), (3, 0)], vec![(3, 0), (x, 0)], vec![(x, 0), (3, 0), ((x + 1) % 3, 0)]] {
+        let tags = vec![
+            Tag { name: "root".into(), from: None, words: vec![0], alias: false, entries: vec![(0, 0), (1, 0)] },
+            Tag { name: "mid".into(), from: Some(0), words: vec![], alias: false, entries: ents.clone() },
+            Tag { name: "leaf".into(), from: Some(1), words: vec![], alias: false, entries: vec![(2, 0)] },
+        ];
+        out.push((tags.clone(), vec![0, 1, 2])); out.push((tags, vec![2, 1, 0]));
+    } }
     out
 }
 
@@ -404,7 +416,7 @@ pub fn run() -> i32 {
     let mut tal = Acc::default();
     alias_stage_box(&mut tal);
     r.boxes.push(json!({"box": "one tag, romanisation file with both sections, two or three rule files in every order: seq == one library run == conv tag + run -j", "comparisons": tal.evals, "cli_processes": tal.procs, "held": tal.ok}));
-    r.guard(tal.ok >= 40, "alias-stage box: at least 40 comparisons held");
+    r.guard(tal.ok >= 80, "alias-stage box: at least 40 comparisons held");
     t.merge(tal);
     let shapes = shape_configs();
     let mut ts = Acc::default();
